@@ -23,6 +23,7 @@ import (
 	"strings"
 	"sync"
 
+	past "github.com/opsidian/parsley/ast"
 	"github.com/opsidian/parsley/combinator"
 	"github.com/opsidian/parsley/data"
 	pparser "github.com/opsidian/parsley/parser"
@@ -56,6 +57,9 @@ type scenario struct {
 	name    string
 	threads func() []job // fresh jobs (sharing whatever the scenario shares); a job named by post runs after the join
 	bound   [2]int       // preemption bound quick, thorough
+	// want: observations every thread must make, fixed by the scenario (used instead of the solo run when a solo
+	// run in the same process could already be polluted by the state under test)
+	want []string
 	// post: when true the LAST job is not a thread: it runs after all threads have finished (uses what they built)
 	post bool
 }
@@ -180,6 +184,38 @@ func scenarios() []scenario {
 				},
 			}
 		}})
+	// S7 per-context keyword registry: one run registers a keyword in ITS context, the other does not; a shared
+	// identifier parser consults ctx.IsKeyword. Expected observations are fixed (a solo run in this process would
+	// already be polluted if contexts shared the registry).
+	ident := pparser.Func(func(ctx *parsley.Context, l data.IntMap, pos parsley.Pos) (parsley.Node, data.IntSet, parsley.Error) {
+		tr := ctx.Reader().(*text.Reader)
+		end, m := tr.ReadRegexp(pos, "[a-z]+")
+		if m == nil {
+			return nil, data.EmptyIntSet, parsley.NewError(pos, parsley.NotFoundError("identifier"))
+		}
+		if ctx.IsKeyword(string(m)) {
+			return nil, data.EmptyIntSet, parsley.NewErrorf(pos, "%s is a reserved keyword", string(m))
+		}
+		return past.NewTerminalNode(nil, "ID", string(m), pos, end), data.EmptyIntSet, nil
+	})
+	idents := combinator.Sentence(combinator.Many1(text.LeftTrim(ident, text.WsSpaces)))
+	kwJob := func(register bool) job {
+		return func(func()) string {
+			f := text.NewFile("f", []byte("let it be"))
+			ctx := parsley.NewContext(parsley.NewFileSet(f), text.NewReader(f))
+			if register {
+				ctx.RegisterKeywords("let", "in")
+			}
+			n, err := parsley.Parse(ctx, idents)
+			return fmt.Sprintf("tree=%s err=%v keyword(let)=%v", impl.Render(n, 1), err, ctx.IsKeyword("let"))
+		}
+	}
+	sc = append(sc, scenario{name: `S7 keyword registry is per context: one run registers "let", the other does not`, bound: [2]int{2, 3},
+		threads: func() []job { return []job{kwJob(true), kwJob(false)} },
+		want: []string{
+			"tree=nil err=failed to parse the input: let is a reserved keyword at f:1:1 keyword(let)=true",
+			"tree=SEQ(MANY(ID=let<0,3> ID=it<4,6> ID=be<7,9>)<0,9> EOF<9,9>)<0,9> err=<nil> keyword(let)=false",
+		}})
 	// S5 one thread constructs while another parses an already built shared grammar
 	sc = append(sc, scenario{name: `S5 construction || parse of a shared grammar`, bound: [2]int{2, 3},
 		threads: func() []job { return []job{constructJob("ayx"), parseJob(hidden, "abb", 1)} }})
@@ -198,6 +234,9 @@ var postJob job
 
 // solo runs every job alone (no scheduler) to obtain the reference observations.
 func solo(sc *scenario) []string {
+	if sc.want != nil {
+		return sc.want
+	}
 	var out []string
 	for _, j := range sc.threads() {
 		current = nil
@@ -358,7 +397,15 @@ func RacePassMain(tier string) {
 	// the exhaustive exploration at call granularity; a difference is printed as a DIFFERS line)
 	for _, sc := range scenarios() {
 		sc := sc
-		want := solo(&sc)
+		// the solo observations are taken from a SEPARATE instance of the scenarios: the instances used below
+		// see their first parses concurrently (a lazily initialised field of the parser graph would be set by a warm-up)
+		var want []string
+		for _, ref := range scenarios() {
+			if ref.name == sc.name {
+				ref := ref
+				want = solo(&ref)
+			}
+		}
 		for rep := 0; rep < 60; rep++ {
 			var wg sync.WaitGroup
 			jobs := sc.threads()
@@ -854,7 +901,7 @@ func init() {
 			"interleavings are explored at the granularity of combinator-to-sub-parser calls; finer-grained conflicts are the race pass's job (happens-before detector, independent of timing once both accesses execute)",
 			"sequentially consistent execution under the cooperative scheduler; weak-memory effects are not modelled",
 		},
-		Shards: func(string) int { return 12 },
+		Shards: func(string) int { return 13 },
 		Run:    c14Run,
 		Replay: c14Replay,
 		Bounds: func(tier string) map[string]any {
